@@ -6,6 +6,11 @@ HERE = os.path.dirname(os.path.abspath(__file__))
 
 # id -> (level, technique, text, note)   (only implemented checks are listed; the rest go to not_applicable)
 CHECKS = {
+    "C10": ("model_checking",
+            "deviation-bounded exhaustive exploration of PdfBuilder inputs (pages, operation sets, boxes, rotation, extras, resources, info) with two oracles per build: a reload through the library and an independent structural reader",
+            "All builder inputs within 4 (quick) / 5 (thorough) deviations of the canonical one-page document are built with the real PdfBuilder; the output must reload with equal page count/order/boxes/rotation/extras/operations/resources/info and must pass an independent byte-level validation (header, startxref, every xref entry -> matching object header, /Size, every /Length, no dangling reference).",
+            "Trusted: the independent reader (refread.rs) and the C08 canonical comparator. More than 3 pages or more simultaneous deviations are not covered.",
+            "§5 C10"),
     "C09": ("model_checking",
             "exhaustive enumeration of all operation histories up to depth 3 (quick) / 4 (thorough) over a 22-symbol alphabet on a real Storage x 4 base files x cached/uncached, checked step by step against a map reference model, an independent structural reader and a reload",
             "Every history of create/update/promise/fulfil/typed read/save/unserialisable-update/repair is executed on the real Storage and Updater; after each step all tracked references are read (resolve and cached typed get incl. Stream::data); after each save: prefix preservation, independent structural validation and value comparison, reload and comparison of written and untouched objects; failing saves must fail cleanly and not wedge the document.",
